@@ -13,6 +13,9 @@ EXTRA = {
     # round 2 (change1 -> <id>-3, change2 -> <id>-4)
     "C01-3": ["C09"], "C02-3": ["C18"], "C02-4": ["C17", "C06"], "C03-4": ["C14"], "C04-3": ["C07"], "C04-4": ["C18"], "C06-3": ["C02", "C17"],
     "C05-5": ["C09"], "C08-4": ["C13"], "C10-4": ["C02", "C17"], "C11-4": ["C12"], "C12-3": ["C09"], "C13-3": ["C08"], "C16-4": ["C11", "C12"], "C17-4": ["C07"],
+    # round 3 (change1 -> <id>-5, change2 -> <id>-6; C05: -6, -7)
+    "C01-5": ["C02", "C04"], "C01-6": ["C07"], "C02-5": ["C09"], "C04-5": ["C02", "C01"], "C06-5": ["C01", "C02"], "C06-6": ["C02"], "C08-6": ["C01"],
+    "C11-5": ["C08"], "C11-6": ["C12"], "C12-6": ["C11"], "C13-5": ["C14"], "C15-5": ["C16"], "C16-6": ["C15"], "C17-6": ["C07"], "C18-5": ["C02"],
 }
 
 
@@ -21,7 +24,7 @@ def sh(cmd, **kw):
 
 
 def main():
-    ids = sys.argv[1:] or sorted(d for d in os.listdir(SEEDED) if os.path.isdir(os.path.join(SEEDED, d)))
+    ids = sys.argv[1:] or sorted(d for d in os.listdir(SEEDED) if os.path.isdir(os.path.join(SEEDED, d)) and not d.startswith("_"))
     res_path = os.path.join(SEEDED, "RESULTS.json")
     results = json.load(open(res_path)) if os.path.exists(res_path) else {}
     if sh("git -C /repo diff --quiet").returncode != 0:
